@@ -112,14 +112,11 @@ pub trait Deserialize: DeserializeInner {
         }
         // deserialize the data structure
         let mem = unsafe { (*ptr).1.as_ref().unwrap() };
-        let s = match Self::deserialize_eps(mem) {
-            Ok(s) => s,
-            Err(e) => {
-                // release the backend, which would be otherwise leaked
-                unsafe { core::ptr::drop_in_place(addr_of_mut!((*ptr).1)) };
-                return Err(e.into());
-            }
-        };
+        // release the backend, which would be otherwise leaked, if
+        // deserialization fails or panics
+        let guard = BackendGuard(unsafe { addr_of_mut!((*ptr).1) });
+        let s = Self::deserialize_eps(mem)?;
+        core::mem::forget(guard);
         // write the deserialized struct in the memcase
         unsafe {
             addr_of_mut!((*ptr).0).write(s);
@@ -166,14 +163,11 @@ pub trait Deserialize: DeserializeInner {
         }
         // deserialize the data structure
         let mem = unsafe { (*ptr).1.as_ref().unwrap() };
-        let s = match Self::deserialize_eps(mem) {
-            Ok(s) => s,
-            Err(e) => {
-                // release the backend, which would be otherwise leaked
-                unsafe { core::ptr::drop_in_place(addr_of_mut!((*ptr).1)) };
-                return Err(e.into());
-            }
-        };
+        // release the backend, which would be otherwise leaked, if
+        // deserialization fails or panics
+        let guard = BackendGuard(unsafe { addr_of_mut!((*ptr).1) });
+        let s = Self::deserialize_eps(mem)?;
+        core::mem::forget(guard);
         // write the deserialized struct in the MemCase
         unsafe {
             addr_of_mut!((*ptr).0).write(s);
@@ -217,20 +211,30 @@ pub trait Deserialize: DeserializeInner {
 
         let mmap = unsafe { (*ptr).1.as_ref().unwrap() };
         // deserialize the data structure
-        let s = match Self::deserialize_eps(mmap) {
-            Ok(s) => s,
-            Err(e) => {
-                // release the backend, which would be otherwise leaked
-                unsafe { core::ptr::drop_in_place(addr_of_mut!((*ptr).1)) };
-                return Err(e.into());
-            }
-        };
+        // release the backend, which would be otherwise leaked, if
+        // deserialization fails or panics
+        let guard = BackendGuard(unsafe { addr_of_mut!((*ptr).1) });
+        let s = Self::deserialize_eps(mmap)?;
+        core::mem::forget(guard);
         // write the deserialized struct in the MemCase
         unsafe {
             addr_of_mut!((*ptr).0).write(s);
         }
         // finish init
         Ok(unsafe { uninit.assume_init() })
+    }
+}
+
+/// Drops the [`MemBackend`] written in a partially initialized [`MemCase`]
+/// unless it is [forgotten](core::mem::forget): it is used by the loading
+/// methods to release the backend when deserialization fails or panics.
+struct BackendGuard(*mut MemBackend);
+
+impl Drop for BackendGuard {
+    fn drop(&mut self) {
+        // SAFETY: the pointer refers to an initialized backend that nobody
+        // else will drop, as the MemCase containing it is never completed.
+        unsafe { core::ptr::drop_in_place(self.0) }
     }
 }
 
